@@ -461,6 +461,17 @@ def generate(rng, tier, profile='faultfree'):
       a, b = b, a
     par[which] = a
     sibling_par = {which: b}
+  data_pre = None
+  if profile != 'c14' and rng.random() < 0.08:
+    # the data object has a past of its own: before the matched-markets object
+    # is built on it, the caller used it through its public API (fixed a geo
+    # index -- all geos, or the very list an earlier analysis had chosen --
+    # and aggregated once).  With a pre-test window that truncates the panel.
+    data_pre = rng.choice(('index_all', 'index_as_chosen', 'index_as_chosen'))
+    n_test = par['n_test']
+    if panel['n_dates'] > n_test + 4:
+      par['n_pretest_max'] = rng.randrange(max(3, n_test + 3),
+                                           panel['n_dates'])
   ops, enabled = _gen_ops(rng, tier, profile, len(panel['geos']),
                            stress=stress)
   if wide or nine:
@@ -472,7 +483,7 @@ def generate(rng, tier, profile='faultfree'):
           'focus': 'C14' if profile == 'c14' else 'C10',
           'panel': panel, 'elig': elig, 'par': par,
           'rng0': rng.randrange(2**31), 'faults_enabled': enabled,
-          'pre_sibling': sibling_par,
+          'pre_sibling': sibling_par, 'data_pre': data_pre,
           'max_designs': 320 if tier == 'quick' else 1500,
           'ops': ops}
 
@@ -520,6 +531,7 @@ class Env:
     else:
       self._elig0 = None
     self._ref_mods = None
+    self.data_pre_done = False
     self._par_overrides = {}
     self._par_kwargs = {}
     for k, v in desc['par'].items():
@@ -586,7 +598,7 @@ class Env:
       self._ref_mods = core.reference_modules(*MODULES)
     return self._ref_mods
 
-  def build(self, mods=None):
+  def build(self, mods=None, data_pre=None):
     """(mm, caller's frame, caller's table, caller's parameter object)."""
     mods = mods or self.mods
     geoeligibility, tbrmatchedmarkets, tbrmmdata = mods[:3]
@@ -595,6 +607,16 @@ class Env:
     par = self.parameters(mods)
     elig = None if edf is None else geoeligibility.GeoEligibility(edf)
     data = tbrmmdata.TBRMMData(df, 'response', elig)
+    if data_pre is not None:
+      # the data object's own past (public API only); whatever it refuses is
+      # simply not part of that past
+      try:
+        data.geo_index = (list(data.df.index) if data_pre == 'index_all'
+                          else list(data_pre))
+        data.aggregate_time_series(set(range(min(2, len(data.geo_index)))))
+        self.data_pre_done = True
+      except Exception:  # pylint: disable=broad-except
+        pass
     mm = tbrmatchedmarkets.TBRMatchedMarkets(data, par)
     return mm, df, edf, par
 
@@ -798,11 +820,23 @@ def execute(desc):
     except Exception:  # pylint: disable=broad-except
       pass
   # ---- build the object under test ----------------------------------------
+  data_pre = desc.get('data_pre')
+  if data_pre == 'index_as_chosen':
+    def chosen():
+      mm_f = env.build_reference()[0]
+      mm_f.geo_assignments  # pylint: disable=pointless-statement
+      return [core.canon(g) for g in mm_f.data.geo_index]
+    try:
+      data_pre = with_ref_rng(chosen)
+    except Exception:  # pylint: disable=broad-except
+      data_pre = 'index_all'
   try:
-    mm, df_in, elig_in, par = env.build()
+    mm, df_in, elig_in, par = env.build(data_pre=data_pre)
   except Exception as e:  # pylint: disable=broad-except
     stats['skipped']['construction_raised_' + type(e).__name__] = 1
     return finish(None, [], ['ctor'], False)
+  if env.data_pre_done:
+    fault('data_object_used_before')
   df0 = env.frame()
   elig0 = env.elig_frame()
   par_base = dataclasses.asdict(env.parameters())
@@ -1359,6 +1393,14 @@ def simplifications(desc):
     d = copy.deepcopy(desc)
     d['pre_sibling'] = None
     yield d
+  if desc.get('data_pre'):
+    d = copy.deepcopy(desc)
+    d['data_pre'] = None
+    yield d
+    if desc['data_pre'] != 'index_all':
+      d = copy.deepcopy(desc)
+      d['data_pre'] = 'index_all'
+      yield d
   if desc.get('elig') is not None:
     d = copy.deepcopy(desc)
     d['elig'] = None
